@@ -179,10 +179,8 @@ def c11_refuse(si: int, ri: int) -> bool:
             elif STATES[si] == 'in_flight':
                 w.send('restart', name='a', match='simple')       # holds the exclusive slot for its grace period and warm-up delays
             cmd, props = MENU[ri]
-            if cmd == 'set' and isinstance(props.get('options'), dict) and list(props['options'])[0] in GOOD and \
-                    (('uid' in props['options']) or (props.get('name') == 's' and 'numprocesses' in props['options'])) and \
-                    rt.finding_listed('c11.set_applies_options_one_by_one'):
-                return rt.skip()      # listed known finding; every other refused request is still checked
+            listed_form = cmd == 'set' and isinstance(props.get('options'), dict) and list(props['options'])[0] in GOOD and \
+                (('uid' in props['options']) or (props.get('name') == 's' and 'numprocesses' in props['options']))
             import copy
             before = snapshot(w)
             r = w.send(cmd, **copy.deepcopy(props))
@@ -195,6 +193,10 @@ def c11_refuse(si: int, ri: int) -> bool:
 
                 rt.note('%s %r: no reply', cmd, props)
                 return rt.verdict(False)
+            if listed_form and r.replies and r.reply.get('errno') == 5 and rt.finding_listed('c11.set_applies_options_one_by_one'):
+                # listed known finding: the watcher itself rejects a later option, the request is answered as a COMMAND error (errno 5,
+                # with a traceback) and the earlier options stay applied.  Answered as a validation error it is judged like any other.
+                return rt.skip()
             if r.status != 'error':
                 if ri in MUST_REFUSE and snapshot(w) != before:
                     rt.note('%s %r is invalid by construction, yet it was answered %r and changed the daemon', cmd, props,
